@@ -36,3 +36,17 @@ package errors
 //@ func New
 //@   pure allocates
 //@   ensures result != nil
+
+// ---- C03: the exit status of a failed run ------------------------------------------------------------------
+// 201 by default; with --exit-code the status of the command that failed (found by unwrapping the error)
+//@ func (*TaskRunError).Code
+//@   pure
+//@   ensures result == 201                                                                                      [C03]
+//@ func (*TaskRunError).TaskExitCode
+//@   site interp.IsExitStatus#1 requires arg0 == err.Err                                                        [C03]
+//@   ensures result != 0                                                                                        [C03]
+// every error class of Task has a non-zero code (interface contract: each implementation returns a constant > 0)
+//@ func (TaskError).Code
+//@   trusted
+//@   pure
+//@   ensures result > 0
